@@ -18,9 +18,9 @@ Definition upd (cs : list itree) (i : nat) (f : itree -> itree) : list itree :=
   match nth_error cs i with Some c => set_nth cs i (f c) | None => cs end.
 
 (* the scalar at p receives x; every union on the way holds the member the path goes through *)
-Fixpoint tset (t : itree) (p : path) (x : val) {struct p} : itree :=
+Fixpoint tset (t : itree) (p : path) (x : option val) {struct p} : itree :=
   match p with
-  | [] => match t with NScalar _ => NScalar (Some x) | _ => t end
+  | [] => match t with NScalar _ => NScalar x | _ => t end
   | i :: q =>
       match t with
       | NScalar _ => t
